@@ -31,6 +31,8 @@ func propC13(c *Ctx) propInfo {
 	c.selectionRules()
 	c.losslessPublication()
 	c.waitListIDs()
+	c.waitPolarity()
+	c.nilContradictions("E1.P8-nil-contradiction", "liteapi/pool")
 	c.floor("E9.K1-guarded-by", 20)
 	c.floor("E9.K2-pairing", 10)
 	c.floor("E9.K6-bounded-waits", 2)
@@ -616,4 +618,84 @@ func valueOf(in ssa.Instruction) ssa.Value {
 
 var excC13E2 = map[string]string{
 	"(*liteapi/pool.ConnPool).InitializeConnections$1$1 R-drop liteapi/pool.connect": "explicit '_': a server that cannot be reached yields a nil client, which the collecting loop skips (wrapper.cli == nil); the pool reports an error only when no server at all could be reached",
+}
+
+// waitPolarity (after the mutation battery): "a head AT or beyond the seqno" - the two places that
+// decide a waiter is done compare head.Seqno >= seqno (not >); and head updates are forwarded to
+// the waiters exactly when they come from the best connection.
+func (c *Ctx) waitPolarity() {
+	const R = "E12.selection"
+	rel := func(f *ssa.Function, b *ssa.BasicBlock, seq ssa.Value) string {
+		for _, ft := range factsAt(f, b) {
+			bo, ok := ft.Cond.(*ssa.BinOp)
+			if !ok {
+				continue
+			}
+			var op token.Token
+			switch {
+			case bo.Y == seq:
+				op = bo.Op
+			case bo.X == seq:
+				op = map[token.Token]token.Token{token.LSS: token.GTR, token.GTR: token.LSS, token.LEQ: token.GEQ, token.GEQ: token.LEQ, token.EQL: token.EQL, token.NEQ: token.NEQ}[bo.Op]
+			default:
+				continue
+			}
+			if !ft.Truth {
+				op = map[token.Token]token.Token{token.LSS: token.GEQ, token.GEQ: token.LSS, token.GTR: token.LEQ, token.LEQ: token.GTR, token.EQL: token.NEQ, token.NEQ: token.EQL}[op]
+			}
+			return op.String()
+		}
+		return "?"
+	}
+	if f := c.fn("liteapi/pool", "ConnPool.WaitMasterchainSeqno"); f != nil && len(f.Params) >= 3 {
+		seq := ssa.Value(f.Params[2])
+		n := 0
+		for _, r := range returnsOf(f) {
+			if r.Block().Comment == "recover" {
+				continue
+			}
+			if !isNilConst(retVal(r, 0)) {
+				continue
+			}
+			n++
+			op := rel(f, r.Block(), seq)
+			c.check(op == ">=", R, "a waiter succeeds for a head at or beyond its seqno", r.Pos(), "head.Seqno >= seqno", "WaitMasterchainSeqno returns success where head.Seqno "+op+" seqno is established; the contract is 'at or beyond' (>=): with > a waiter for exactly the current block waits for the next one, or times out")
+		}
+		if n == 0 {
+			c.bad(R, "a waiter succeeds for a head at or beyond its seqno", f.Pos(), "WaitMasterchainSeqno has no success return the rule can read (undecided)")
+		}
+	}
+	if f := c.fn("liteapi/pool", "ConnPool.subscribe"); f != nil && len(f.Params) >= 2 {
+		seq := ssa.Value(f.Params[1])
+		// the immediate answer: a send on the fresh channel behind the comparison
+		allInstrs(f, func(b *ssa.BasicBlock, in ssa.Instruction) {
+			if _, ok := in.(*ssa.Send); !ok {
+				return
+			}
+			op := rel(f, b, seq)
+			c.check(op == ">=", R, "subscribe answers at once for a head at or beyond the seqno", in.Pos(), "head.Seqno >= seqno", "subscribe hands the current head to the waiter where head.Seqno "+op+" seqno; the contract is >=")
+		})
+	}
+	if f := c.fn("liteapi/pool", "ConnPool.notifySubscribers"); f != nil {
+		allInstrs(f, func(b *ssa.BasicBlock, in ssa.Instruction) {
+			if _, ok := in.(*ssa.Send); !ok {
+				return
+			}
+			same := false
+			for _, ft := range factsAt(f, b) {
+				bo, ok := ft.Cond.(*ssa.BinOp)
+				if !ok || (bo.Op != token.EQL && bo.Op != token.NEQ) {
+					continue
+				}
+				cx, cy := callOf(bo.X), callOf(bo.Y)
+				if cx == nil || cy == nil || !strings.HasSuffix(callQName(&cx.Call), ".ID") || !strings.HasSuffix(callQName(&cy.Call), ".ID") {
+					continue
+				}
+				if (bo.Op == token.EQL) == ft.Truth {
+					same = true
+				}
+			}
+			c.check(same, R, "waiters are told about heads of the best connection only", in.Pos(), "send behind update.Conn.ID() == bestConn.ID()", "notifySubscribers forwards a head update to the waiters on the path where it does NOT come from the best connection (and drops those that do): waiters are woken by a server that may be ahead of the one requests go to, or never woken")
+		})
+	}
 }
